@@ -222,11 +222,11 @@ fn fam_histories(o: &mut Out, props: &str, seed0: u64, deadline: Instant) {
     let sp = space();
     // ds outermost: every (variant, planner) pair is visited once before any pair is visited a second time (the budget may end early)
     'outer: for ds in 0..3u64 {
-        for variant in 0..10u64 {
+        for variant in 0..11u64 {
             for (pi, pl) in planners().into_iter().enumerate() {
                 if Instant::now() > deadline { break 'outer; }
                 // seeds are a function of the scenario (variants 0-5 keep the seeds they always had)
-                let k = if variant < 6 { (pi as u64 * 6 + variant) * 3 + ds } else { 300 + (pi as u64 * 4 + (variant - 6)) * 3 + ds };
+                let k = if variant < 6 { (pi as u64 * 6 + variant) * 3 + ds } else if variant < 10 { 300 + (pi as u64 * 4 + (variant - 6)) * 3 + ds } else { 400 + (pi as u64 * 8 + (variant - 10)) * 3 + ds };
                 let seed = seed0.wrapping_mul(1000) + 500 + k;
                 let (step, radius) = (0.6, 1.2);
                 let w_open = world(3);
@@ -286,6 +286,15 @@ fn fam_histories(o: &mut Out, props: &str, seed0: u64, deadline: Instant) {
                             let outside = pd(&sp, (-0.25, 5.0 + ds as f64), (2.5, 5.0), 0.6);
                             inst.setup(outside.clone(), w_open.clone());
                             if let Ok(path) = inst.solve(Duration::from_millis(400)) { check_path(o, props, &scen, seed, &sp, &w_open, &outside, &path, Inst::limit(pl, step, radius)); }
+                        }
+                    }
+                    10 => { // PRM: roadmap built for a valid start, then a new problem whose start lies marginally inside the wall
+                        if let Inst::Prm(p) = &mut inst {
+                            let vc: Arc<dyn StateValidityChecker<S>> = w_wall.clone();
+                            p.setup(p2.clone(), vc); let _ = p.construct_roadmap();
+                            let inside = pd(&sp, (4.503 + ds as f64 * 0.002, 5.0), (1.0, 9.0), 0.6);
+                            p.set_problem_definition(inside.clone());
+                            if let Ok(path) = p.solve(Duration::from_millis(500)) { check_path(o, props, &scen, seed, &sp, &w_wall, &inside, &path, radius); }
                         }
                     }
                     _ => { // PRM: reuse the roadmap for a new start / goal
@@ -451,6 +460,124 @@ impl StateSpace for ReplaySpace {
     }
     fn get_longest_valid_segment_length(&self) -> f64 { self.inner.get_longest_valid_segment_length() }
 }
+// ---------------------------------------------------------------------------------------------- C16 reference extension
+#[derive(Clone)]
+enum Ev { Sample(S), Added(S) }
+struct LogSpace { inner: SP, log: Arc<Mutex<Vec<Ev>>> }
+impl StateSpace for LogSpace {
+    type StateType = S;
+    fn distance(&self, a: &S, b: &S) -> f64 { self.inner.distance(a, b) }
+    fn interpolate(&self, a: &S, b: &S, t: f64, o: &mut S) { self.inner.interpolate(a, b, t, o) }
+    fn enforce_bounds(&self, s: &mut S) { self.inner.enforce_bounds(s) }
+    fn satisfies_bounds(&self, s: &S) -> bool { self.inner.satisfies_bounds(s) }
+    fn sample_uniform(&self, rng: &mut impl Rng) -> Result<S, StateSamplingError> { let s = self.inner.sample_uniform(rng)?; self.log.lock().unwrap().push(Ev::Sample(s.clone())); Ok(s) }
+    fn get_longest_valid_segment_length(&self) -> f64 { self.inner.get_longest_valid_segment_length() }
+}
+struct LogGoal { inner: DiscGoal, log: Arc<Mutex<Vec<Ev>>> }
+impl Goal<S> for LogGoal { fn is_satisfied(&self, s: &S) -> bool { self.log.lock().unwrap().push(Ev::Added(s.clone())); self.inner.is_satisfied(s) } }
+impl GoalRegion<S> for LogGoal { fn distance_goal(&self, s: &S) -> f64 { self.inner.distance_goal(s) } }
+impl GoalSampleableRegion<S> for LogGoal {
+    fn sample_goal(&self, rng: &mut impl Rng) -> Result<S, StateSamplingError> { let s = self.inner.sample_goal(rng)?; self.log.lock().unwrap().push(Ev::Sample(s.clone())); Ok(s) }
+}
+/// C16: RRT and RRT* test the goal on exactly the node they have just added, so the goal sees every added node and the space /
+/// goal see every sample.  Replaying the log against an independent nearest-neighbour + steering computation checks, iteration
+/// by iteration: at most one node per sample; the node is the steering result from the NEAREST node (bit for bit); and the
+/// motion from that nearest node to it is free (no invalid stretch as long as the resolution).
+fn fam_extension_reference(o: &mut Out, seed0: u64, deadline: Instant) {
+    'outer: for ds in 0..6u64 {
+        for wk in [7u64, 0, 2] {
+            for (star, step, radius) in [(false, 0.6, 0.0), (true, 0.6, 1.3), (true, 0.4, 2.0), (true, 1.2, 2.0)] {
+                if Instant::now() > deadline { break 'outer; }
+                let seed = seed0.wrapping_mul(1000) + 30_000 + (ds * 8 + wk) * 40 + (step * 10.0) as u64 + star as u64 + (radius * 2.0) as u64;
+                let log = Arc::new(Mutex::new(vec![]));
+                let sp = Arc::new(LogSpace { inner: RealVectorStateSpace::new(2, Some(vec![(0.0, 10.0), (0.0, 10.0)])).unwrap(), log: log.clone() });
+                // world 7: a field of small boxes (an edge can be blocked while a slightly different edge to the same node is free)
+                let w = if wk == 7 { Arc::new(World { boxes: (0..6).flat_map(|i| (0..6).map(move |j| (1.2 + i as f64 * 1.5, 1.35 + i as f64 * 1.5, 0.9 + j as f64 * 1.6 + (i % 2) as f64 * 0.5, 1.1 + j as f64 * 1.6 + (i % 2) as f64 * 0.5))).collect(), log: Mutex::new(vec![]) }) } else { world(wk) };
+                let start = RealVectorState::new(vec![0.5 + ds as f64 * 0.1, 0.4]);
+                let pdx = Arc::new(ProblemDefinition { space: sp.clone(), start_states: vec![start.clone()], goal: Arc::new(LogGoal { inner: DiscGoal { c: (9.0, 8.5 - ds as f64), r: 0.5 }, log: log.clone() }) });
+                let vc: Arc<dyn StateValidityChecker<S>> = w.clone();
+                let cfg = PlannerConfig { seed: Some(seed) };
+                let name = if star { "RRT*" } else { "RRT" };
+                let r = std::panic::catch_unwind(std::panic::AssertUnwindSafe(|| {
+                    if star { let mut p: RRTStar<S, LogSpace, LogGoal> = RRTStar::new(step, 0.1, radius, &cfg); p.setup(pdx.clone(), vc.clone()); let _ = p.solve(Duration::from_millis(250)); }
+                    else { let mut p: RRT<S, LogSpace, LogGoal> = RRT::new(step, 0.1, &cfg); p.setup(pdx.clone(), vc.clone()); let _ = p.solve(Duration::from_millis(250)); }
+                }));
+                if r.is_err() { continue; }
+                let evs = log.lock().unwrap().clone();
+                let mut tree: Vec<S> = vec![start.clone()];
+                let lvsl = sp.inner.get_longest_valid_segment_length();
+                let scen = format!("extension reference {} world{} step{}", name, wk, step);
+                // the documented motion check (C03): ceil(d / (0.1 * resolution)) interpolated states and the end state itself
+                let ref_motion = |a: &S, b: &S| -> bool {
+                    let dist = sp.inner.distance(a, b);
+                    let n = (dist / (lvsl * 0.1)).ceil() as usize;
+                    if n <= 1 { return w.free(b.values[0], b.values[1]); }
+                    let mut tmp = a.clone();
+                    for i in 1..=n { sp.inner.interpolate(a, b, i as f64 / n as f64, &mut tmp); if !w.free(tmp.values[0], tmp.values[1]) { return false; } }
+                    w.free(b.values[0], b.values[1])
+                };
+                let mut pending: Option<(S, usize, S, bool)> = None;
+                for ev in evs.iter().take(6000) {
+                    match ev {
+                        Ev::Sample(q) => {
+                            if let Some((pq, bi, exp, valid)) = pending.take() {
+                                if valid { o.report(&scen, seed, format!("iteration with sample {:?}: no node was added although one step from the nearest node {:?} to {:?} is a free motion", pq.values, tree[bi].values, exp.values)); break; }
+                            }
+                            let (mut bi, mut bd) = (0usize, sp.inner.distance(&tree[0], q));
+                            for i in 1..tree.len() { let dd = sp.inner.distance(&tree[i], q); if dd < bd { bd = dd; bi = i; } }
+                            let mut exp = tree[bi].clone();
+                            if bd > step { sp.inner.interpolate(&tree[bi], q, step / bd, &mut exp); } else { exp = q.clone(); }
+                            let valid = ref_motion(&tree[bi], &exp);
+                            pending = Some((q.clone(), bi, exp, valid));
+                        }
+                        Ev::Added(nn) => {
+                            let (q, bi, exp, valid) = match pending.take() { Some(p) => p, None => { o.report(&scen, seed, format!("node {:?} was added without a new sample (more than one node per iteration)", nn.values)); break; } };
+                            if exp.values.iter().zip(&nn.values).any(|(a, b)| a.to_bits() != b.to_bits()) {
+                                o.report(&scen, seed, format!("iteration with sample {:?}: node {:?} was added, but one step of {} from the nearest node {:?} towards the sample is {:?}", q.values, nn.values, step, tree[bi].values, exp.values)); break;
+                            }
+                            if !valid { o.report(&scen, seed, format!("iteration with sample {:?}: node {:?} was added although the motion from the nearest node {:?} is blocked", q.values, nn.values, tree[bi].values)); break; }
+                            tree.push(nn.clone());
+                        }
+                    }
+                }
+            }
+        }
+    }
+}
+
+/// a space whose sampler covers only the right half of the box: queries from the left half start in a gap of the roadmap
+struct HalfSpace { inner: SP }
+impl StateSpace for HalfSpace {
+    type StateType = S;
+    fn distance(&self, a: &S, b: &S) -> f64 { self.inner.distance(a, b) }
+    fn interpolate(&self, a: &S, b: &S, t: f64, o: &mut S) { self.inner.interpolate(a, b, t, o) }
+    fn enforce_bounds(&self, s: &mut S) { self.inner.enforce_bounds(s) }
+    fn satisfies_bounds(&self, s: &S) -> bool { self.inner.satisfies_bounds(s) }
+    fn sample_uniform(&self, rng: &mut impl Rng) -> Result<S, StateSamplingError> { Ok(RealVectorState::new(vec![rng.random_range(5.0..10.0), rng.random_range(0.0..10.0)])) }
+    fn get_longest_valid_segment_length(&self) -> f64 { self.inner.get_longest_valid_segment_length() }
+}
+/// C05 / C18 / C02: a PRM query whose start has no milestone within the connection radius must fail, not be hooked to a far milestone
+fn fam_prm_gap(o: &mut Out, seed0: u64) {
+    let radius = 1.0;
+    for ds in 0..3u64 {
+        let sp = Arc::new(HalfSpace { inner: RealVectorStateSpace::new(2, Some(vec![(0.0, 10.0), (0.0, 10.0)])).unwrap() });
+        let mk = |s: (f64, f64), g: (f64, f64)| Arc::new(ProblemDefinition { space: sp.clone(), start_states: vec![RealVectorState::new(vec![s.0, s.1])], goal: Arc::new(DiscGoal { c: g, r: 0.7 }) });
+        let mut prm: PRM<S, HalfSpace, DiscGoal> = PRM::new(0.08, radius, &PlannerConfig { seed: Some(seed0 * 10 + ds) });
+        let vc: Arc<dyn StateValidityChecker<S>> = Arc::new(OnlyInside);
+        prm.setup(mk((6.0, 5.0), (9.0, 8.0)), vc);
+        let _ = prm.construct_roadmap();
+        for (qi, (s, g)) in [((6.0, 5.0), (9.0, 8.0)), ((2.0, 5.0 + ds as f64), (9.0, 2.0)), ((3.5, 1.0), (8.0, 8.0))].into_iter().enumerate() {
+            if qi > 0 { prm.set_problem_definition(mk(s, g)); }
+            if let Ok(path) = prm.solve(Duration::from_millis(500)) {
+                let p = &path.0;
+                for k in 0..p.len().saturating_sub(1) {
+                    let dd = sp.inner.distance(&p[k], &p[k + 1]);
+                    if dd >= radius + 1e-9 { o.report("prm gap", seed0 * 10 + ds, format!("query {} from {:?}: segment #{} has length {} although links need dist < connection radius {}", qi, s, k, dd, radius)); break; }
+                }
+            }
+        }
+    }
+}
 struct OnlyInside;
 impl StateValidityChecker<S> for OnlyInside { fn is_valid(&self, s: &S) -> bool { s.values[0] >= 0.0 && s.values[1] >= 0.0 } }
 fn fam_prm_reference(o: &mut Out, seed0: u64) {
@@ -533,8 +660,10 @@ fn main() {
             let half = Instant::now() + Duration::from_secs_f64(budget / 2.0);
             let p = if prop == "C18" || prop == "C16" || prop == "C17" || prop == "C08" { "all".to_string() } else { prop.clone() };
             if prop == "C06" { fam_deadline(&mut o, seed); }
-            if prop == "C16" { fam_bias(&mut o, seed); }
-            if prop == "C18" { fam_prm_reference(&mut o, seed); }
+            if prop == "C16" { fam_bias(&mut o, seed); fam_extension_reference(&mut o, seed, Instant::now() + Duration::from_secs_f64(budget / 3.0)); }
+            // the scripted-roadmap reference (exact link rule, reference BFS) also exposes wrong start connections / over-long first edges
+            if prop == "C18" || prop == "C05" || prop == "C02" || prop == "C03" { fam_prm_reference(&mut o, seed); }
+            if prop == "C18" || prop == "C05" { fam_prm_gap(&mut o, seed); }
             fam_histories(&mut o, &p, seed, half);
             fam_paths(&mut o, &p, seed, deadline);
             fam_star_dense(&mut o, &p, seed, deadline + Duration::from_secs_f64(budget / 3.0));
